@@ -1,7 +1,10 @@
 import Ufw.Props.C02
+import Ufw.Tie.RegTable
 #print axioms Ufw.Props.C02.refused_unchanged
 #print axioms Ufw.Props.C02.decision
 #print axioms Ufw.Props.C02.writeable_spec
 #print axioms Ufw.Props.C02.writeable_ok
 #print axioms Ufw.Props.C02.taint_spec
 #print axioms Ufw.Props.C02.malformed_ok
+#print axioms Ufw.Tie.RegTable.const_rds_size
+#print axioms Ufw.Tie.RegTable.const_enums
